@@ -384,6 +384,19 @@ def run(R):
                 R.mon["exchanges_with_shared_credentials"] += 1
         finally:
             SHARED_CREDS[0] = None
+    # (i) several users of ONE engine whose passwords have the SAME LENGTH and the same
+    # protocols but other contents, one after the other in one process, the first one
+    # again, and the first user's name with the second user's passwords: anything
+    # remembered per engine, per user name or per password length would be stale
+    for level in levels4:
+        k += 1
+        if not R.mine(k):
+            continue
+        eng = b"\x80\x00\x1f\x88\x04c10-equal-length"
+        turns = (("alice", b"equal-length-pw-1", b"equal-length-pv-1"), ("bob", b"equal-length-pw-2", b"equal-length-pv-2"), ("alice", b"equal-length-pw-1", b"equal-length-pv-1"), ("alice", b"equal-length-pw-2", b"equal-length-pv-2"), ("bob", b"equal-length-pw-2", b"equal-length-pv-1"))
+        for turn, (u, apw, ppw) in enumerate(turns):
+            one_world(R, level, "equallen", turn, apw, ppw, eng, ops=("get", "set"), user=u, pad=2)
+            R.mon["exchanges_of_users_with_equally_long_passwords"] += 1
     # (e) one client object used as another user first (other hash / other level)
     for level in levels4:
         for prev in rig.V3_LEVELS:
